@@ -74,6 +74,8 @@ class NgapRT(Stream):
         S = self.S
         cases = []
         per_msg = 1 if tier == "quick" else 6
+        if getattr(self, "search", False):
+            per_msg = 12            # a proof obligation broke: look harder for a value that exhibits it
         per_root = 2 if tier == "quick" else 10
         for rep in range(per_msg):
             for (cls, j, code, name) in A.ngap_messages(S):
